@@ -125,6 +125,17 @@ def interrupted_inside_queue_put(r: dict) -> bool:
     return False
 
 
+def sigint_at_prompt_inside_asyncio_run(r: dict) -> bool:
+    """F-G6's mechanism: the child's main thread still sits at the prompt, below asyncio's runner (whose SIGINT handler swallowed
+    the first SIGINT)"""
+    for block in (r.get('child_stacks') or '').split('\nThread '):
+        lines = [l.strip() for l in block.splitlines() if l.strip().startswith('File ')]
+        if any('pdb_/prompt.py' in l and 'in prompt' in l for l in lines[:4]) and any('asyncio/runners.py' in l and 'in run' in l for l in lines) \
+                and any('nextline/spawned/__init__.py' in l and 'in main' in l for l in lines):
+            return True
+    return False
+
+
 def check_real(spec: dict, r: dict) -> list[str]:
     rec = r['rec']
     msgs = []
@@ -191,6 +202,8 @@ def run(chk: common.Check) -> None:
                 sig = 'child_died_holding_queue_write_lock'
             if 'never finished' in m[0] and (spec.get('signal') or {}).get('kind') == 'interrupt' and interrupted_inside_queue_put(r):
                 sig = 'interrupt_inside_queue_put'
+            if 'never finished' in m[0] and (spec.get('signal') or {}).get('kind') == 'interrupt' and sigint_at_prompt_inside_asyncio_run(r):
+                sig = 'sigint_at_prompt_inside_asyncio_run'
             oracle_fail.append(({'real_run': {k: v for k, v in spec.items()}, 'stacks': (r['rec'] or {}).get('stacks_at_timeout'), 'child_stacks': (r.get('child_stacks') or '')[-4000:],
                                  'states': (r['rec'] or {}).get('states')}, m, sig))
     _life.finish(chk, 'C02', oracle_fail, dis, 'results, state and run_info publications, result()/format_exception()')
